@@ -7,7 +7,8 @@
     with only H_TANGENT (C03) left as a premise (H-STABLE-DET is a closed C02 theorem). *)
 From Coq Require Import ZArith List Bool Permutation.
 From Geo Require Import Model.Crosser Model.CrosserExec Model.Contain
-  Proofs.C02_Float Proofs.C04_Brute Proofs.C04_Polygon Proofs.Link_C02_C03 Proofs.Link_C03_C04.
+  Proofs.C02_Float Proofs.C03_Crosser Proofs.C03_Vertex Proofs.C04_Brute Proofs.C04_Polygon
+  Proofs.Link_C02_C03 Proofs.Link_C03_C04.
 Import ListNotations.
 
 Section Real.
@@ -59,3 +60,88 @@ Section Real.
              (sh_edges upoint (polygon_shape upoint zeroPt P)) p.
   Proof. exact (polygon_xor upoint u_eov origin zeroPt u_eov_sym_cd u_eov_degenerate_cd). Qed.
 End Real.
+
+(** * The specification-level predicate needs no tangent hypothesis
+
+    [eov_spec] is EdgeOrVertexCrossing as the exact four-orientation criterion plus the vertex
+    rule (Model/Crosser.v).  Its two interface laws follow from the orientation laws alone;
+    H_TANGENT is only what ties the crosser's float shortcut to this specification
+    ([Link_C03_C04.eov_is_spec]).  For the real RobustSign all orientation laws are closed C02
+    theorems, so the containment theorems below carry NO premise. *)
+Section SpecLaws.
+  Variable point : Type.
+  Variable peq : point -> point -> bool.
+  Variable sign : point -> point -> point -> Z.
+  Variable refdir : point -> point.
+  Hypothesis peq_refl : forall a, peq a a = true.
+  Hypothesis peq_sym : forall a b, peq a b = peq b a.
+  Hypothesis peq_trans : forall a b c, peq a b = true -> peq b c = true -> peq a c = true.
+  Hypothesis sign_rotate : forall a b c, sign b c a = sign a b c.
+  Hypothesis sign_swap : forall a b c, sign c b a = Z.opp (sign a b c).
+
+  Lemma eov_spec_sym_cd : eov_sym_cd_law point (eov_spec point peq sign refdir).
+  Proof.
+    intros a b c d. unfold eov_spec.
+    destruct (crossing_spec_sym point peq sign peq_sym sign_rotate sign_swap a b c d) as [_ [H _]].
+    rewrite H.
+    rewrite (vc_reverse_cd point peq sign refdir peq_sym peq_trans a b c d).
+    reflexivity.
+  Qed.
+
+  Lemma eov_spec_degenerate_cd : eov_degenerate_cd_law point (eov_spec point peq sign refdir).
+  Proof.
+    intros a b c. unfold eov_spec, crossing_spec.
+    rewrite (vc_degenerate_cd point peq sign refdir peq_refl a b c).
+    destruct (shared point peq a b c c); [reflexivity|].
+    unfold degenerate. rewrite (peq_refl c), orb_true_r. reflexivity.
+  Qed.
+End SpecLaws.
+
+Section RealSpec.
+  Variable refdir : upoint -> upoint.
+  Variables origin emptyPt fullPt zeroPt : upoint.
+
+  (** the exact crossing predicate on unit points *)
+  Definition u_eov_spec : upoint -> upoint -> upoint -> upoint -> bool :=
+    eov_spec upoint u_peq u_sign refdir.
+
+  Lemma u_eov_spec_sym_cd : eov_sym_cd_law upoint u_eov_spec.
+  Proof.
+    exact (eov_spec_sym_cd upoint u_peq u_sign refdir u_peq_sym u_peq_trans u_sign_rotate u_sign_swap).
+  Qed.
+  Lemma u_eov_spec_degenerate_cd : eov_degenerate_cd_law upoint u_eov_spec.
+  Proof. exact (eov_spec_degenerate_cd upoint u_peq u_sign refdir u_peq_refl). Qed.
+
+  (** under H_TANGENT the crosser computes exactly this predicate *)
+  Lemma u_eov_is_spec : H_TANGENT -> forall a b c d, u_eov refdir a b c d = u_eov_spec a b c d.
+  Proof.
+    intros HT a b c d. unfold u_eov, u_eov_spec. apply Link_C03_C04.eov_is_spec;
+      first [ exact u_peq_refl | exact u_peq_sym | exact u_peq_trans
+            | exact u_sign_rotate | exact u_sign_swap | exact u_sign_zero_iff
+            | exact u_triage_sound | exact HT ].
+  Qed.
+
+  Theorem invert_complement_spec_real : forall (L : loop upoint) (p : upoint),
+    brute_contains upoint u_eov_spec origin zeroPt (invert upoint emptyPt fullPt L) p
+    = negb (brute_contains upoint u_eov_spec origin zeroPt L p).
+  Proof. apply invert_complement; [exact u_eov_spec_sym_cd | exact u_eov_spec_degenerate_cd]. Qed.
+
+  Theorem polygon_invert_complement_spec_real :
+    forall (P Q : polygon upoint) (L : loop upoint) (rest : list (loop upoint)) (p : upoint),
+      Permutation (map fst P) (L :: rest) ->
+      Permutation (map fst Q) (invert upoint emptyPt fullPt L :: rest) ->
+      polygon_brute upoint u_eov_spec origin zeroPt Q p
+      = negb (polygon_brute upoint u_eov_spec origin zeroPt P p).
+  Proof.
+    exact (polygon_invert_complement upoint u_eov_spec origin emptyPt fullPt zeroPt
+             u_eov_spec_sym_cd u_eov_spec_degenerate_cd).
+  Qed.
+
+  Theorem polygon_xor_spec_real : forall (P : polygon upoint) (p : upoint),
+    polygon_brute upoint u_eov_spec origin zeroPt P p
+    = parity upoint u_eov_spec origin (sh_ref_inside upoint (polygon_shape upoint zeroPt P))
+             (sh_edges upoint (polygon_shape upoint zeroPt P)) p.
+  Proof.
+    exact (polygon_xor upoint u_eov_spec origin zeroPt u_eov_spec_sym_cd u_eov_spec_degenerate_cd).
+  Qed.
+End RealSpec.
